@@ -345,6 +345,17 @@ theorem run_from_init {σ : Type} (D : DFA σ) (rd : Reader) (hrd : rd.OK) (size
   refine ⟨?_, h2.fits⟩
   rw [h1]; simp [init, unread, tokensOf]
 
+/-- C03's first sentence at the buffer level, under the name the checks cite.  **Partial**: it
+    is a statement about `Runtime/Buf.lean`, which covers scanners whose actions leave the input
+    alone (no yyless / yymore / yyunput / yyinput / buffer switch), without REJECT's state stack,
+    with the end-of-buffer test as a position test (the NUL sentinel detour is not in the model)
+    and without `int` overflow of the buffer size.  The full property is explored against the
+    abstract scanner of `Runtime/Abs.lean`. -/
+theorem delivery_independent_partial {σ : Type} (D : DFA σ) (rd : Reader) (hrd : rd.OK) (size : Nat)
+    (hs : 1 ≤ size) (src : List UInt8) (fuel : Nat) :
+    tokensOf (run D rd fuel (init size src)).out.toList = absLex D fuel true src :=
+  (run_from_init D rd hrd size hs src fuel).1
+
 /-- the harness's cyclic schedule of read sizes is an input routine in the above sense -/
 theorem schedReader_OK (sched : List Nat) : (schedReader sched).OK := by
   intro i max avail
